@@ -216,6 +216,10 @@ type Hist struct {
 	Tracked   []string // patterns currently tracked
 	Ops       []string
 	paths     []string
+	// attrSpelling: attribute list written after each tracked pattern
+	attrSpelling string
+	// fixedTracking: never change what is tracked
+	fixedTracking bool
 }
 
 var histPaths = []string{"a.bin", "b.bin", "dir/c.bin", "dir/sub/d.bin", "e.dat", "notes.txt", "dir/readme.txt"}
@@ -266,8 +270,12 @@ func (h *Hist) Init() {
 
 func (h *Hist) writeAttributes() {
 	var b strings.Builder
+	sp := h.attrSpelling
+	if sp == "" {
+		sp = "filter=lfs diff=lfs merge=lfs -text"
+	}
 	for _, p := range h.Tracked {
-		fmt.Fprintf(&b, "%s filter=lfs diff=lfs merge=lfs -text\n", p)
+		fmt.Fprintf(&b, "%s %s\n", p, sp)
 	}
 	os.WriteFile(filepath.Join(h.Dir, ".gitattributes"), []byte(b.String()), 0644)
 }
@@ -412,6 +420,12 @@ func (h *Hist) Step() {
 		h.Tags = append(h.Tags, name)
 		h.log("tag %s", name)
 	case 11: // change what is tracked
+		if h.fixedTracking {
+			p := h.paths[t.Choose(len(h.paths), "path")]
+			h.WriteFile(p, h.NewContent())
+			h.commit("write instead of tracking change")
+			return
+		}
 		if t.Choose(2, "track-dir") == 0 && len(h.Tracked) > 1 {
 			h.Tracked = h.Tracked[:len(h.Tracked)-1]
 		} else if len(h.Tracked) < 2 {
